@@ -230,6 +230,7 @@ contract(SOL + "irrigation.py", "irrigation",
              ("C04.irr_nonneg", "Irr >= 0"),
              ("C13.irr_daily_max", "Irr <= IrrMngt_MaxIrr"),
              ("C13.irr_cum", "implies(growing_season, IrrCum == NewCond_IrrCum + Irr)"),
+             ("C06.irr_counter_accumulates_the_applied_depth", "implies(growing_season, IrrCum == NewCond_IrrCum + Irr) and implies(not growing_season, IrrCum == 0)"),
              ("C13.irr_season_max", "implies(NewCond_IrrCum <= IrrMngt_MaxIrrSeason, IrrCum <= IrrMngt_MaxIrrSeason)"),
              ("C13.irr_interval_days", "implies(growing_season and IrrMngt_IrrMethod == 2 and Irr > 0, (NewCond_DAP - 1) % IrrMngt_IrrInterval == 0)"),
              ("C13.irr_schedule_exact", "implies(growing_season and IrrMngt_IrrMethod == 3, Irr == " + _CAP.format(x="min(IrrMngt_MaxIrr, IrrMngt_Schedule[NewCond_TimeStepCounter])") + ")"),
@@ -282,7 +283,7 @@ contract(SOL + "infiltration.py", "infiltration",
              ("C02.infiltration_negative_only_on_bund_removal", "InflOut >= -NewCond_SurfaceStorage and implies(InflOut < 0, not %s)" % _BE),
              ("C02.infiltration_zero", "implies(%s == 0 and NewCond_SurfaceStorage == 0, InflOut == 0 and RunoffTot == Runoff0)" % _IN),
              ("C03.infiltration_bounds", WATER_INV("thnew")),
-             ("C03.infiltration_ponding", "SS >= 0 and implies(%s, SS <= FieldMngt_zBund) and implies(not FieldMngt_Bunds, SS == 0)" % _BE),
+             ("C03.infiltration_ponding", "SS >= 0 and implies(%s, SS <= FieldMngt_zBund) and implies(not %s, SS == 0)" % (_BE, _BE)),
              ("C04.infiltration_deep_perc_sign", "DeepPerc >= DeepPerc0"),
              ("C03.infiltration_monotone", "forall(j, 0, n, thnew[j] >= old(NewCond_th[j]))"),
              ("C12.infiltration_fresh", "fresh(thnew) and same(FluxOutR, FluxOut)"),
@@ -457,6 +458,8 @@ contract(SOL + "soil_evaporation.py", "soil_evaporation",
              ("C03.evap_upper", "forall(j, 0, n, th_out[j] <= old(NewCond_th[j]))"),
              ("C04.evap_act_nonneg", "EsAct >= 0"),
              ("C03.evap_ponding", "0 <= SS and SS <= NewCond_SurfaceStorage"),
+             # C02: infiltration can only be negative by releasing ponded water; that needs the ponding to stay non-negative through the day
+             ("C02.evap_ponding_stays_nonneg", "0 <= SS and SS <= NewCond_SurfaceStorage"),
              ("C12.evap_in_place", "same(th_out, NewCond_th)"),
              ("C03.evap_state", "Soil_EvapZmin <= EvapZ and EvapZ <= Soil_EvapZmax + 0.001 and Wstage2 >= 0 and Wsurf >= 0"),
          ],
@@ -500,7 +503,13 @@ contract(SOL + "soil_evaporation.py", "soil_evaporation",
                                                        "IrrMngt_WetSurf": "Irr > 0 and IrrMngt_IrrMethod != 4"},
                       # C20: at the point where the two adjusted potentials are combined (the only consumers of the mulch / wetted-surface parameters),
                       # neutral settings give the unadjusted potential; nothing is forgotten at this cut
-                      cuts=[dict(before="EsPot = min(EsPotIrr, EsPotMul)",
+                      cuts=[# C08: on the first simulated day and on day 1 of a season entered without off-season simulation the evaporation-layer state is
+                            # re-initialised, whatever state the previous season left (assertion-only cut after the re-initialisation block)
+                            dict(before="if Rain > 0 or",
+                                 **{"assert": ["implies(ClockStruct_TimeStepCounter == 0 or (NewCond_DAP == 1 and not ClockStruct_SimOffSeason), "
+                                               "NewCond_Wsurf == 0 and NewCond_EvapZ == Soil_EvapZmin and NewCond_Stage2 and NewCond_Wstage2 >= 0)"]},
+                                 havoc=[]),
+                            dict(before="EsPot = min(EsPotIrr, EsPotMul)",
                                  **{"assert": ["implies(not FieldMngt_Mulches or FieldMngt_MulchPct == 0 or FieldMngt_fMulch == 0, EsPotMul == EsPot)",
                                                "implies(not (Irr > 0 and IrrMngt_IrrMethod != 4) or IrrMngt_WetSurf == 100, EsPotIrr == EsPot)",
                                                "EsPotMul <= EsPot and EsPotIrr <= EsPot"]},
@@ -568,6 +577,7 @@ contract(SOL + "transpiration.py", "transpiration",
                                         "old(wsum(Soil_Profile.dz, InitCond.th, n)) + old(InitCond.surface_storage) + IrrNet"),
              ("C03.transpiration_bounds", WATER_INV("NewCond.th", "Soil_Profile")),
              ("C03.transpiration_ponding", "0 <= NewCond.surface_storage and NewCond.surface_storage <= old(InitCond.surface_storage)"),
+             ("C02.transpiration_ponding_stays_nonneg", "0 <= NewCond.surface_storage and NewCond.surface_storage <= old(InitCond.surface_storage)"),
              ("C13.transpiration_net_only_method4", "implies(IrrMngt_IrrMethod != 4, IrrNet == 0)"),
              ("C06.transpiration_net_cum", "NewCond.irr_net_cum == ite(growing_season and IrrMngt_IrrMethod == 4, old(InitCond.irr_net_cum) + IrrNet, 0)"),
              ("C06.transpiration_tpot_state", "NewCond.t_pot == TrPot0"),
